@@ -13,88 +13,247 @@ def _calls(node, attr):
             and ((isinstance(n.func, ast.Attribute) and n.func.attr == attr) or (isinstance(n.func, ast.Name) and n.func.id == attr))]
 
 
-def _len_after_conversion(fn, conv_names):
-    """
-    True when every `len(x)` whose value is emitted is applied to a name that was last assigned from a
-    call to one of conv_names (to_bytes / encode) earlier in the function; False when some len() is applied to
-    something else; None when no len() call exists.
-    """
-    converted = set()
-    verdicts = []
-    for stmt in ast.walk(fn):
-        pass
-    for stmt in fn.body if hasattr(fn, "body") else []:
-        for n in ast.walk(stmt):
-            if isinstance(n, ast.Assign) and len(n.targets) == 1 and isinstance(n.targets[0], ast.Name):
-                is_conv = isinstance(n.value, ast.Call) and (
-                    (isinstance(n.value.func, ast.Attribute) and n.value.func.attr in conv_names)
-                    or (isinstance(n.value.func, ast.Name) and n.value.func.id in conv_names))
-                if is_conv:
-                    converted.add(n.targets[0].id)
-                else:
-                    converted.discard(n.targets[0].id)
-            if isinstance(n, ast.Call) and isinstance(n.func, ast.Name) and n.func.id == "len" and n.args:
-                a = n.args[0]
-                # only the len() that feeds a header / print
-                verdicts.append(isinstance(a, ast.Name) and a.id in converted)
-    return None if not verdicts else all(verdicts)
+def _is_call_to(node, names):
+    return isinstance(node, ast.Call) and (
+        (isinstance(node.func, ast.Attribute) and node.func.attr in names)
+        or (isinstance(node.func, ast.Name) and node.func.id in names))
+
+
+def _stmts_in_order(stmts):
+    """Statements of a function body in source order, compound statements flattened (their header first)."""
+    for stmt in stmts:
+        yield stmt
+        for field in ("body", "orelse", "finalbody"):
+            sub = getattr(stmt, field, None)
+            if isinstance(sub, list):
+                for x in _stmts_in_order([s for s in sub if isinstance(s, ast.stmt)]):
+                    yield x
+        for h in getattr(stmt, "handlers", None) or []:
+            for x in _stmts_in_order(h.body):
+                yield x
 
 
 def _header_len_sites(fn, conv_names):
-    """Restrict to len() calls that appear inside a putheader/send_header/print call."""
-    converted = set()
+    """
+    The value of every Content-Length line emitted by fn (putheader / send_header / print whose constant
+    argument starts with "content-length") is the len() of a name last assigned from a conversion call
+    (to_bytes / encode), possibly through one-step aliases:  b = to_bytes(x); n = len(b); putheader(.., str(n)).
+    True / False; None when fn emits no Content-Length line.
+    """
+    tag = {}  # name -> "conv" | "len-conv" | "len-other"
     verdicts = []
 
-    def visit(stmts):
-        for stmt in stmts:
-            if isinstance(stmt, ast.Assign) and len(stmt.targets) == 1 and isinstance(stmt.targets[0], ast.Name):
-                v = stmt.value
-                is_conv = isinstance(v, ast.Call) and (
-                    (isinstance(v.func, ast.Attribute) and v.func.attr in conv_names)
-                    or (isinstance(v.func, ast.Name) and v.func.id in conv_names))
-                if is_conv:
-                    converted.add(stmt.targets[0].id)
-                else:
-                    converted.discard(stmt.targets[0].id)
-            for n in ast.walk(stmt) if not isinstance(stmt, (ast.If, ast.Try, ast.While, ast.For, ast.With)) else []:
-                if isinstance(n, ast.Call) and (
-                        (isinstance(n.func, ast.Attribute) and n.func.attr in ("putheader", "send_header"))
-                        or (isinstance(n.func, ast.Name) and n.func.id == "print")):
-                    for m in ast.walk(n):
-                        if isinstance(m, ast.Call) and isinstance(m.func, ast.Name) and m.func.id == "len" and m.args:
-                            a = m.args[0]
-                            verdicts.append(isinstance(a, ast.Name) and a.id in converted)
-            for field in ("body", "orelse", "finalbody", "handlers"):
-                sub = getattr(stmt, field, None)
-                if isinstance(sub, list):
-                    visit([s for s in sub if isinstance(s, ast.stmt)] + [h for h in sub if isinstance(h, ast.ExceptHandler)])
+    def len_arg(v):
+        """Name inside len(<Name>) / str(len(<Name>)), or None."""
+        if _is_call_to(v, ("str",)) and len(v.args) == 1:
+            v = v.args[0]
+        if isinstance(v, ast.Call) and isinstance(v.func, ast.Name) and v.func.id == "len" and len(v.args) == 1:
+            return v.args[0]
+        return None
 
-    visit(fn.body)
+    for stmt in _stmts_in_order(fn.body):
+        if isinstance(stmt, ast.Assign) and len(stmt.targets) == 1 and isinstance(stmt.targets[0], ast.Name):
+            name, v = stmt.targets[0].id, stmt.value
+            la = len_arg(v)
+            if _is_call_to(v, conv_names):
+                tag[name] = "conv"
+            elif isinstance(v, ast.Name) and v.id in tag:
+                tag[name] = tag[v.id]
+            elif la is not None:
+                tag[name] = "len-conv" if isinstance(la, ast.Name) and tag.get(la.id) == "conv" else "len-other"
+            else:
+                tag.pop(name, None)
+            continue
+        if isinstance(stmt, (ast.If, ast.Try, ast.While, ast.For, ast.With)):
+            # only the header expressions of compound statements are looked at here; their bodies come next
+            heads = [getattr(stmt, "test", None), getattr(stmt, "iter", None)]
+            nodes = [h for h in heads if h is not None]
+        else:
+            nodes = [stmt]
+        for top in nodes:
+            for n in ast.walk(top):
+                if not _is_call_to(n, ("putheader", "send_header", "print")):
+                    continue
+                consts = [a.value.lower() for a in n.args if isinstance(a, ast.Constant) and isinstance(a.value, str)]
+                if not any(c.startswith("content-length") for c in consts):
+                    continue
+                site = []
+                for m in ast.walk(n):
+                    if isinstance(m, ast.Call) and isinstance(m.func, ast.Name) and m.func.id == "len" and m.args:
+                        a = m.args[0]
+                        site.append(isinstance(a, ast.Name) and tag.get(a.id) == "conv")
+                    elif isinstance(m, ast.Name) and tag.get(m.id) in ("len-conv", "len-other"):
+                        site.append(tag[m.id] == "len-conv")
+                verdicts.append(bool(site) and all(site))
     return None if not verdicts else all(verdicts)
 
 
-def _server_decodes_after_join(fn):
-    """do_POST: from_bytes is applied outside the read loop to a join(...) of the chunks."""
-    in_loop = False
+def _assignments(fn):
+    """name -> list of values assigned to it anywhere in fn (single Name targets only)."""
+    out = {}
     for n in ast.walk(fn):
-        if isinstance(n, ast.While):
-            if _calls(n, "from_bytes"):
-                in_loop = True
-    joins = [c for c in _calls(fn, "from_bytes") if c.args and isinstance(c.args[0], ast.Call)
-             and isinstance(c.args[0].func, ast.Attribute) and c.args[0].func.attr == "join"]
-    if not _calls(fn, "from_bytes"):
+        if isinstance(n, ast.Assign) and len(n.targets) == 1 and isinstance(n.targets[0], ast.Name):
+            out.setdefault(n.targets[0].id, []).append(n.value)
+    return out
+
+
+def _is_join(node):
+    return isinstance(node, ast.Call) and isinstance(node.func, ast.Attribute) and node.func.attr == "join"
+
+
+def _resolves_to_join(node, assigns, depth=2):
+    """node is `x.join(...)`, or a name every (non-decoding) assignment of which is one, through at most two aliases."""
+    if _is_join(node):
+        return node
+    if isinstance(node, ast.Name) and depth > 0:
+        vals = [v for v in assigns.get(node.id, []) if not _is_call_to(v, ("from_bytes", "decode_request_content"))]
+        if not vals:
+            return None
+        res = [_resolves_to_join(v, assigns, depth - 1) for v in vals]
+        if all(r is not None for r in res):
+            return res[0]
+    return None
+
+
+def _server_decodes_after_join(fn):
+    """
+    do_POST: from_bytes is applied outside the read loop to the join of the list the loop appends to, possibly
+    through a one-step local alias (`raw = b"".join(chunks); data = from_bytes(raw)`).  Decoding inside the loop,
+    or decoding anything that is not the joined list, gives False.
+    """
+    decodes = _calls(fn, "from_bytes")
+    if not decodes:
         return None
-    return bool(joins) and not in_loop
+    loops = [n for n in ast.walk(fn) if isinstance(n, (ast.While, ast.For))]
+    in_loop = set()
+    appended = set()
+    for lp in loops:
+        for c in _calls(lp, "from_bytes"):
+            in_loop.add(id(c))
+        for c in _calls(lp, "append"):
+            if isinstance(c.func, ast.Attribute) and isinstance(c.func.value, ast.Name):
+                appended.add(c.func.value.id)
+    if in_loop:
+        return False
+    assigns = _assignments(fn)
+    for c in decodes:
+        j = _resolves_to_join(c.args[0], assigns) if c.args else None
+        if j is None or not j.args:
+            return False
+        src = j.args[0]
+        if isinstance(src, ast.Name) and src.id in assigns and src.id not in appended:
+            # one-step alias of the list itself
+            vals = assigns[src.id]
+            src = vals[0] if len(vals) == 1 else src
+        if not (isinstance(src, ast.Name) and src.id in appended):
+            return False
+    return True
 
 
 def _client_decodes_after_join(src):
+    """JSONTarget: feed() stores the raw chunk (no decoding there); close() decodes the join of the stored chunks
+    once, possibly through a one-step local alias."""
     feed = src.func("jsonrpc", "JSONTarget.feed")
     close = src.func("jsonrpc", "JSONTarget.close")
     if feed is None or close is None:
         return None
-    if _calls(feed, "from_bytes"):
+    if _calls(feed, "from_bytes") or _calls(feed, "decode"):
         return False
-    return bool(_calls(close, "from_bytes")) and bool(_calls(close, "join"))
+    decodes = _calls(close, "from_bytes")
+    if not decodes:
+        return None
+    if any(_calls(lp, "from_bytes") for lp in ast.walk(close) if isinstance(lp, (ast.While, ast.For))):
+        return False
+    assigns = _assignments(close)
+    return all(c.args and _resolves_to_join(c.args[0], assigns) is not None for c in decodes)
+
+
+def _handler_from_url(fn):
+    """
+    ServerProxy.__init__: (every assignment to the handler attribute is the parsed URL's path or the constant "/",
+    at least one is the path; every assignment to the query-string attribute is the parsed URL's query) - with no
+    call or other expression applied; a one-step local alias is tolerated.
+    """
+    assigns = _assignments(fn)
+    parsed = {}   # expression kind by local name: "su" (the parse result), "path", "query"
+    for n in ast.walk(fn):
+        if isinstance(n, ast.Assign) and len(n.targets) == 1 and _is_call_to(n.value, ("urlparse", "urlsplit")):
+            t = n.targets[0]
+            fname = n.value.func.attr if isinstance(n.value.func, ast.Attribute) else n.value.func.id
+            if isinstance(t, ast.Name):
+                parsed[t.id] = "su"
+            elif isinstance(t, (ast.Tuple, ast.List)):
+                idx = {"urlparse": (2, 4), "urlsplit": (2, 3)}[fname]
+                for i, e in enumerate(t.elts):
+                    if isinstance(e, ast.Name) and i == idx[0]:
+                        parsed[e.id] = "path"
+                    if isinstance(e, ast.Name) and i == idx[1]:
+                        parsed[e.id] = "query"
+    if not parsed:
+        return None
+
+    def kind(v, depth=1):
+        if isinstance(v, ast.Attribute) and isinstance(v.value, ast.Name) and parsed.get(v.value.id) == "su" \
+                and v.attr in ("path", "query"):
+            return v.attr
+        if isinstance(v, ast.Name) and parsed.get(v.id) in ("path", "query"):
+            return parsed[v.id]
+        if isinstance(v, ast.Constant) and isinstance(v.value, str):
+            return "const:" + v.value
+        if isinstance(v, ast.Name) and depth > 0 and len(assigns.get(v.id, [])) == 1:
+            return kind(assigns[v.id][0], depth - 1)
+        return "other"
+
+    hk, qk = [], []
+    for n in ast.walk(fn):
+        if isinstance(n, ast.Assign):
+            for t in n.targets:
+                if isinstance(t, ast.Attribute) and isinstance(t.value, ast.Name) and t.value.id == "self":
+                    if t.attr.endswith("handler"):
+                        hk.append(kind(n.value))
+                    elif t.attr.endswith("query_string") or t.attr.endswith("query"):
+                        qk.append(kind(n.value))
+    if not hk or not qk:
+        return None
+    return ("path" in hk and all(k in ("path", "const:/") for k in hk), all(k == "query" for k in qk))
+
+
+def _forwards_param(fn, callee, arg_index, keyword=None):
+    """Every call `….<callee>(…)` in fn passes fn's third parameter (self, x, <handler>, …) unchanged as positional
+    argument <arg_index> (or as keyword), the parameter never being reassigned; a one-step alias is tolerated."""
+    params = [a.arg for a in fn.args.args]
+    if len(params) < 3:
+        return None
+    h = params[2]
+    for n in ast.walk(fn):
+        targets = []
+        if isinstance(n, ast.Assign):
+            targets = n.targets
+        elif isinstance(n, (ast.AugAssign, ast.AnnAssign)):
+            targets = [n.target]
+        for t in targets:
+            for m in ast.walk(t):
+                if isinstance(m, ast.Name) and m.id == h:
+                    return False
+    assigns = _assignments(fn)
+    calls = _calls(fn, callee)
+    if not calls:
+        return None
+
+    def is_h(v, depth=1):
+        if isinstance(v, ast.Name) and v.id == h:
+            return True
+        if isinstance(v, ast.Name) and depth > 0 and len(assigns.get(v.id, [])) == 1:
+            return is_h(assigns[v.id][0], depth - 1)
+        return False
+
+    for c in calls:
+        v = c.args[arg_index] if len(c.args) > arg_index else None
+        if v is None and keyword:
+            v = next((k.value for k in c.keywords if k.arg == keyword), None)
+        if v is None or not is_h(v):
+            return False
+    return True
 
 
 def _max_chunk(fn):
@@ -158,12 +317,22 @@ def facts(src):
         if None not in t:
             ctc = t
     sch = _schemes(init) if init is not None else None
+    hfu = _handler_from_url(init) if init is not None else None
+    sr = src.func("jsonrpc", "TransportMixIn.single_request")
+    sq = src.func("jsonrpc", "TransportMixIn.send_request")
+    fwd = None
+    if sr is not None and sq is not None:
+        t = (_forwards_param(sr, "send_request", 1, "handler"), _forwards_param(sq, "putrequest", 1, "url"))
+        if None not in t:
+            fwd = t
+    b2 = lambda t: "(%s, %s)" % tuple(lean_bool(x) for x in t)
     b3 = lambda t: "(%s, %s, %s)" % tuple(lean_bool(x) for x in t)
     return [
         Fact("lenAfterToBytes", "Bool × Bool × Bool", None if la is None else b3(la), ["C17"],
              "the Content-Length value is len() of the converted bytes in (client send_content, server do_POST, CGI handler)", json_value=la),
         Fact("serverDecodesAfterJoin", "Bool", None if sd is None else lean_bool(sd), ["C17"],
-             "do_POST decodes the joined raw chunks once, outside the read loop", json_value=sd),
+             "do_POST applies from_bytes outside the read loop to the join of the chunks the loop collected "
+             "(a one-step local alias is tolerated)", json_value=sd),
         Fact("clientDecodesAfterJoin", "Bool", None if cd is None else lean_bool(cd), ["C17"],
              "JSONTarget buffers raw chunks and decodes once in close()", json_value=cd),
         Fact("maxChunkSize", "Nat", None if mc is None else str(mc), ["C17"], "do_POST max_chunk_size", json_value=mc),
@@ -172,4 +341,10 @@ def facts(src):
         Fact("acceptedSchemes", "List String × String",
              None if sch is None else "(%s, %s)" % (lean_list([lean_str(x) for x in sch[0]]), lean_str(sch[1])), ["C17"],
              "ServerProxy.__init__: accepted schemes after stripping the unix prefix", json_value=sch),
+        Fact("handlerFromUrl", "Bool × Bool", None if hfu is None else b2(hfu), ["C17"],
+             "ServerProxy.__init__ assigns (the handler from the parsed URL's path or the constant \"/\", the query string "
+             "from the parsed URL's query) with no call applied", json_value=hfu),
+        Fact("targetForwarded", "Bool × Bool", None if fwd is None else b2(fwd), ["C17"],
+             "(single_request passes its handler parameter unchanged to send_request, send_request passes it unchanged as "
+             "the second argument of every putrequest call)", json_value=fwd),
     ]
